@@ -53,6 +53,18 @@ TEXT = {
  "C13": ("C13_limits_consistent: for every transport and every size the adapter path accepts a payload iff it is at most Transport::max_message_size(), from the size pre-checks of udp.rs/ws.rs, the limits the websocket library is configured with on BOTH handshake paths and the receive buffers — all re-read from the sources and the locked tungstenite source each run (C13_gen_obligation); C13_send_status_table: the exact decision table of Driver::send (Sent only through the adapter; ResourceNotAvailable iff registered and not ready, adapter not called; ResourceNotFound iff not registered, adapter not called). Real sockets: limit-1/limit/limit+1 per transport, pending/ready/removed/fabricated endpoints on all four transports; mock-adapter scripts for the table.",
          "Trusted: Coq kernel; translator; kernel EMSGSIZE threshold; tungstenite limits read from its source.",
          "Coq proof + per-run obligations on regenerated limits + real-socket boundary scenarios + scripted correspondence", "DESIGN.md 4 (C13)"),
+ "C05": ("C05_callback_mutex: in every state reachable by ANY label sequence of the node.rs model (program counters of the network and signal threads, the callback mutex, the running flag; any interleaving, any poll batches and signals, callbacks of any duration, stop() anywhere, for_each and for_each_async) at most one thread is between callback entry and exit. Trace inclusion: real nodes run with hook trace points (lock scope, running checks, cache push/pop, poll / signal-wait) and the harness's own callback records; every recorded trace must be a run of the model (extracted acceptor), and an in-callback flag checks overlap directly.",
+         "Trusted: Coq kernel; Mutex and thread join as oracles; Relaxed flag modelled SC; hook placement; harness.",
+         "Coq invariant proof over a program-counter LTS + trace inclusion of instrumented real runs", "DESIGN.md 4 (C05)"),
+ "C09": ("C09_stop_in_callback_final: in every accepted run no callback entry follows a stop() issued inside a callback (either thread, either mode, whatever is queued, polled or cached); C09_stop_before_start: if the node is stopped when the listener call begins the callback is never invoked. Real nodes: stop at every event index (network events and signals), before start, from an unrelated thread, in for_each / for_each_async / enqueue; the listener must return within 1.5 s; traces checked for inclusion in the model.",
+         "Trusted: as C05; bounded-time return is measured.",
+         "Coq invariant proof over a program-counter LTS + trace inclusion + scripted stop points on real nodes", "DESIGN.md 4 (C09)"),
+ "C15": ("C15_cached_first_in_order: in every reachable state the network events handed to the callback are a prefix of the events the processor emitted (cache thread first, then the same processor in the listener thread), and while nothing was dropped by a stop, received ++ waiting = emitted. Real nodes: numbered datagrams sent 70 ms or more before the listener call and after it, three listener modes, must arrive first, complete and in order.",
+         "Trusted: as C05.",
+         "Coq invariant proof (prefix / conservation) + trace inclusion + real-node order checks", "DESIGN.md 4 (C15)"),
+ "C18": ("PARTIAL. Proved on the models: every path that ends a connection (remove()->true, Disconnected, failed connect, failed inbound handshake) leaves no registry entry (C18_ended_connection_unregistered, C18_failed_pending_unregistered) and the listener loops exit at their heads once stopped. NOT provable here: that dropping the last reference closes the descriptor (Rust ownership + adapter Drop code + kernel). That part is measured: real histories of listens, connects, accepts, removals, peer FIN/RST, refused connects, garbage / half-open handshakes on Tcp/FramedTcp/Ws/Udp, with /proc/self/fd and /proc/self/task compared at quiescent points, peers checking EOF, and a node dropped unstarted under traffic.",
+         "Trusted: Coq kernel; Rust ownership (not modelled); kernel; harness.",
+         "Coq proof of the registry part + descriptor/thread measurements on real histories (partial)", "DESIGN.md 4 (C18)"),
 }
 
 def chk(pid):
